@@ -218,12 +218,16 @@ type e1Node struct {
 	lastSnapIndex uint64
 	dead          bool
 	order         *verifrt.Order // how this replica iterates maps (mapseam)
+	proto, protoSet bool         // this node's -pre1.0_protobuf flag (set by the engines that vary it)
 	restored      bool // went through FSM.Restore at least once
 	cycled        bool // went through Marshal+Unmarshal at least once
 }
 
 func (n *e1Node) use() {
 	verifrt.Use(n.order)
+	if n.protoSet {
+		*useProtobuf = n.proto // -pre1.0_protobuf is a per-process flag: each simulated node has its own
+	}
 	ircServer = n.irc
 	outputStream = n.out
 	ircStore = n.ircs
@@ -257,6 +261,9 @@ func (n *e1Node) start() error {
 	n.out, err = outputstream.NewOutputStream(n.dir)
 	if err != nil {
 		return err
+	}
+	if n.protoSet {
+		*useProtobuf = n.proto
 	}
 	n.logs, err = raftstore.NewLevelDBStore(filepath.Join(n.dir, "raftlog"), false, *useProtobuf)
 	if err != nil {
